@@ -99,8 +99,21 @@ def run_case(case):
     ubm = _prior(pr, s, o)
     prior = _params(ubm)
     snapshot = [a.copy() for a in prior]
+    # the relevance factor / ratio as the caller may hold it: Python number, NumPy integer, float32, float64 scalar, 0-d array
+    rel_given, alpha_given = relevance, alpha
+    pres = (sum(sw) + len(pr["w"]) + len(X)) % 4
+    if relevance is not None and pres:
+        if pres == 1 and float(relevance) == int(relevance) and abs(relevance) < 2**31:
+            rel_given = np.int64(int(relevance))
+        elif pres == 2 and float(np.float32(relevance)) == float(relevance):
+            rel_given = np.float32(relevance)
+        elif pres == 3:
+            rel_given = np.asarray(float(relevance))
+    if alpha is not None and np.ndim(alpha) == 0 and pres in (2, 3):
+        alpha_given = np.float64(alpha) if pres == 2 else np.asarray(float(alpha))
 
     def fit(k):
+        relevance, alpha = rel_given, alpha_given
         if case.get("route") == "set_params":
             # same configuration reached through the estimator's public parameter interface after construction
             m = GMMMachine(len(pr["w"]), ubm=ubm)
